@@ -163,6 +163,32 @@ func runAPI(rec *recorder, sc *Scenario) error {
 			}
 			empty := err == nil && (res == nil || res.State == nil)
 			s.emit(0, func() ev { return ev{"ev": "ApiRet", "op": "wait", "ok": err == nil, "known": k, "empty": empty} })
+		case name == "waitto":
+			// a Wait that gives up (context deadline) while the plan may still be running
+			id, k := pick(arg)
+			wctx, cancel := context.WithTimeout(ctx, time.Millisecond)
+			var err error
+			guard("waitto", func() { _, err = ws.Wait(wctx, id) })
+			cancel()
+			s.emit(0, func() ev { return ev{"ev": "ApiRet", "op": "waitto", "ok": err == nil, "known": k, "empty": false} })
+		case name == "statusbrk":
+			// a Status consumer that stops after the first result
+			id, k := pick(arg)
+			n := 0
+			done := make(chan struct{})
+			sctx, cancel := context.WithTimeout(ctx, 2*time.Second)
+			go func() {
+				defer close(done)
+				guard("statusbrk", func() {
+					for range ws.Status(sctx, id, 300*time.Microsecond) {
+						n++
+						break
+					}
+				})
+			}()
+			<-done
+			cancel()
+			s.emit(0, func() ev { return ev{"ev": "ApiRet", "op": "statusbrk", "ok": true, "known": k, "empty": n == 0} })
 		case name == "plan":
 			id, k := pick(arg)
 			var res *workflow.Plan
